@@ -385,7 +385,10 @@ def build_optimizer(case, model, shapes):
     Ws = weights(case, shapes)
     Wt = [None if w is None else torch.tensor(w) for w in Ws]
     wlist = None if all(w is None for w in Wt) else [w if w is not None else torch.eye(s[1], dtype=torch.float64) for w, s in zip(Wt, shapes)]
-    sol = {"PINV": pp.optim.solver.PINV, "LSTSQ": pp.optim.solver.LSTSQ, "Cholesky": pp.optim.solver.Cholesky, "CG": pp.optim.solver.CG}[case["solver"]]()
+    if case["solver"] == "Cholesky" and (case["cseed"] + case["B"]) % 3 == 0:
+        sol = pp.optim.solver.Cholesky(upper=True)          # the documented option of the solver: "all solvers" includes their options
+    else:
+        sol = {"PINV": pp.optim.solver.PINV, "LSTSQ": pp.optim.solver.LSTSQ, "Cholesky": pp.optim.solver.Cholesky, "CG": pp.optim.solver.CG}[case["solver"]]()
     rsol = RecSolver(sol)
     kw = {} if case["weight_at_step"] else {"weight": wlist}
     if case["opt"] == "GN":
